@@ -362,7 +362,7 @@ pub fn drive(spec: &Value) -> CaseOut {
             match spec["only"].as_u64() {
                 Some(idx) => one(&mut acc, idx, &batch_program(o1, idx)),
                 None => {
-                    for idx in 0..batch_len(n) {
+                    for idx in spec["from"].as_u64().unwrap_or(0)..batch_len(n) {
                         one(&mut acc, idx, &batch_program(o1, idx));
                     }
                 }
